@@ -39,13 +39,13 @@ theorem wf_blk {k sz : Nat} (h : (PTy.blk k sz).wf = true) :
   simp [PTy.wf] at h
   omega
 
-/-! ### `target_machinize` simulates the psABI (long doubles already aligned) -/
+/-! ### `target_machinize` simulates the psABI -/
 
 def MachRel (m : MachSt) (s : SysV) : Prop :=
   s.ni = min m.intArgNum 6 ∧ s.nf = min m.fpArgNum 8 ∧ s.off = m.memSize
 
 theorem machStep_sysv (S : Int) (m : MachSt) (s : SysV) (p : PTy) (hR : MachRel m s)
-    (hwf : p.wf = true) (hld : p = .ld → s.off % 16 = 0) :
+    (hwf : p.wf = true) :
     (machStep m p).1.map (MPiece.resolve (S - 8)) = (sysvStep s p).1.map (Piece.resolve S)
     ∧ MachRel (machStep m p).2 (sysvStep s p).2 := by
   obtain ⟨hi, hf, ho⟩ := hR
@@ -79,9 +79,7 @@ theorem machStep_sysv (S : Int) (m : MachSt) (s : SysV) (p : PTy) (hR : MachRel 
       simp [machStep, sysvStep, fpArgRegP, h, h', MachRel, MPiece.resolve, Piece.resolve, argDisp, startSpFromBp]
       omega
   | ld =>
-    have ha := hld rfl
-    have hal : (s.off + 15) / 16 * 16 = s.off := by omega
-    simp [machStep, sysvStep, MachRel, MPiece.resolve, Piece.resolve, argDisp, startSpFromBp, hal]
+    simp [machStep, sysvStep, MachRel, MPiece.resolve, Piece.resolve, argDisp, startSpFromBp, ho]
     omega
   | blk k sz =>
     obtain ⟨h1, h4, h16, h8⟩ := wf_blk hwf
@@ -158,17 +156,14 @@ theorem machStep_sysv (S : Int) (m : MachSt) (s : SysV) (p : PTy) (hR : MachRel 
     · omega
 
 theorem machWalk_sysv (S : Int) : ∀ (ps : List PTy) (m : MachSt) (s : SysV), MachRel m s →
-    allWf ps = true → ldAligned s ps = true →
+    allWf ps = true →
     (machWalk m ps).1.map (·.map (MPiece.resolve (S - 8))) = (sysvWalk s ps).1.map (·.map (Piece.resolve S))
     ∧ MachRel (machWalk m ps).2 (sysvWalk s ps).2
-  | [], _, _, hR, _, _ => ⟨rfl, hR⟩
-  | p :: ps, m, s, hR, hwf, hld => by
+  | [], _, _, hR, _ => ⟨rfl, hR⟩
+  | p :: ps, m, s, hR, hwf => by
     simp only [allWf, Bool.and_eq_true] at hwf
-    simp only [ldAligned, Bool.and_eq_true] at hld
-    have hldp : p = .ld → s.off % 16 = 0 := by
-      intro hp; subst hp; simpa using hld.1
-    obtain ⟨h1, h2⟩ := machStep_sysv S m s p hR hwf.1 hldp
-    obtain ⟨h3, h4⟩ := machWalk_sysv S ps _ _ h2 hwf.2 hld.2
+    obtain ⟨h1, h2⟩ := machStep_sysv S m s p hR hwf.1
+    obtain ⟨h3, h4⟩ := machWalk_sysv S ps _ _ h2 hwf.2
     simp only [machWalk, sysvWalk, List.map_cons]
     exact ⟨by rw [h1, h3], h4⟩
 
@@ -179,7 +174,7 @@ def VaRel (v : VaList) (s : SysV) : Prop :=
   v.gp = 8 * s.ni ∧ v.fp = 48 + 16 * s.nf ∧ v.oaa = s.off ∧ s.ni ≤ 6 ∧ s.nf ≤ 8
 
 theorem vaBlockArg_sysv (v : VaList) (s : SysV) (k sz : Nat) (hR : VaRel v s)
-    (hwf : (PTy.blk k sz).wf = true) (hsafe : blkSafe s [.blk k sz] = true) :
+    (hwf : (PTy.blk k sz).wf = true) :
     (vaBlockArg v sz k).1.map Src.toPiece = (sysvStep s (.blk k sz)).1
     ∧ VaRel (vaBlockArg v sz k).2 (sysvStep s (.blk k sz)).2 := by
   obtain ⟨hg, hf, ho, hi6, hf8⟩ := hR
@@ -208,35 +203,52 @@ theorem vaBlockArg_sysv (v : VaList) (s : SysV) (k sz : Nat) (hR : VaRel v s)
     · have hov : v.gp + (sz + 7) / 8 * 8 > 48 := by unfold words at hfit; omega
       simp [vaBlockArg, sysvStep, VaRel, hfit, hov]
       exact ⟨hmem, hg, hf, by unfold words; omega, hi6, hf8⟩
-  · have hfit : s.nf + words sz ≤ 8 := by simpa [blkSafe] using hsafe
-    have hw12 : words sz = 1 ∨ words sz = 2 := by unfold words; omega
-    have hp : rsaPiece v.fp = .xmm s.nf := by rw [hf]; exact rsaPiece_xmm s.nf (by omega)
-    rcases hw12 with hw1 | hw2
-    · have hb' : ¬ (sz + 7) / 8 * 8 > 8 := by unfold words at hw1; omega
-      have hfit1 : s.nf ≤ 7 := by omega
-      simp [vaBlockArg, sysvStep, VaRel, hfit1, hw1, hb', Src.toPiece, hp]
+  · by_cases hfit : s.nf + words sz ≤ 8
+    · have hw12 : words sz = 1 ∨ words sz = 2 := by unfold words; omega
+      have hnov : ¬ (v.fp + (sz + 7) / 8 * 8 * 2 > 176) := by unfold words at hfit; omega
+      have hp : rsaPiece v.fp = .xmm s.nf := by rw [hf]; exact rsaPiece_xmm s.nf (by omega)
+      rcases hw12 with hw1 | hw2
+      · have hb' : ¬ (sz + 7) / 8 * 8 > 8 := by unfold words at hw1; omega
+        have hfit1 : s.nf ≤ 7 := by omega
+        simp [vaBlockArg, sysvStep, VaRel, hfit1, hw1, hnov, hb', Src.toPiece, hp]
+        omega
+      · have hb : (sz + 7) / 8 * 8 > 8 := by unfold words at hw2; omega
+        have hp2 : rsaPiece (v.fp + 16) = .xmm (s.nf + 1) := by
+          have : v.fp + 16 = 48 + 16 * (s.nf + 1) := by omega
+          rw [this]; exact rsaPiece_xmm (s.nf + 1) (by omega)
+        have hfit2 : s.nf ≤ 6 := by omega
+        simp [vaBlockArg, sysvStep, VaRel, hfit2, hw2, hnov, hb, Src.toPiece, hp, hp2]
+        omega
+    · have hov : v.fp + (sz + 7) / 8 * 8 * 2 > 176 := by unfold words at hfit; omega
+      simp [vaBlockArg, sysvStep, VaRel, hfit, hov]
+      exact ⟨hmem, hg, hf, by unfold words; omega, hi6, hf8⟩
+  · by_cases hfit : s.ni < 6 ∧ s.nf < 8
+    · have hno : ¬ (v.fp > 160 ∨ v.gp > 40) := by omega
+      have hp : rsaPiece v.gp = .gpr s.ni := by rw [hg]; exact rsaPiece_gpr s.ni hfit.1
+      have hq : rsaPiece v.fp = .xmm s.nf := by rw [hf]; exact rsaPiece_xmm s.nf hfit.2
+      simp [vaBlockArg, sysvStep, VaRel, hfit, hno, Src.toPiece, hp, hq]
       omega
-    · have hb : (sz + 7) / 8 * 8 > 8 := by unfold words at hw2; omega
-      have hp2 : rsaPiece (v.fp + 16) = .xmm (s.nf + 1) := by
-        have : v.fp + 16 = 48 + 16 * (s.nf + 1) := by omega
-        rw [this]; exact rsaPiece_xmm (s.nf + 1) (by omega)
-      have hfit2 : s.nf ≤ 6 := by omega
-      simp [vaBlockArg, sysvStep, VaRel, hfit2, hw2, hb, Src.toPiece, hp, hp2]
+    · have hyes : v.fp > 160 ∨ v.gp > 40 := by omega
+      simp [vaBlockArg, sysvStep, VaRel, hfit, hyes]
+      exact ⟨hmem, hg, hf, by unfold words; omega, hi6, hf8⟩
+  · by_cases hfit : s.ni < 6 ∧ s.nf < 8
+    · have hno : ¬ (v.fp > 160 ∨ v.gp > 40) := by omega
+      have hp : rsaPiece v.gp = .gpr s.ni := by rw [hg]; exact rsaPiece_gpr s.ni hfit.1
+      have hq : rsaPiece v.fp = .xmm s.nf := by rw [hf]; exact rsaPiece_xmm s.nf hfit.2
+      simp [vaBlockArg, sysvStep, VaRel, hfit, hno, Src.toPiece, hp, hq]
       omega
-  · simp [blkSafe] at hsafe
-  · simp [blkSafe] at hsafe
+    · have hyes : v.fp > 160 ∨ v.gp > 40 := by omega
+      simp [vaBlockArg, sysvStep, VaRel, hfit, hyes]
+      exact ⟨hmem, hg, hf, by unfold words; omega, hi6, hf8⟩
   · omega
 
-theorem vaArgStep_sysv (v : VaList) (s : SysV) (p : PTy) (hR : VaRel v s) (hwf : p.wf = true)
-    (hsafe : blkSafe s [p] = true) (hld : p = .ld → s.off % 16 = 0) :
+theorem vaArgStep_sysv (v : VaList) (s : SysV) (p : PTy) (hR : VaRel v s) (hwf : p.wf = true) :
     (vaArgStep v p).1.map Src.toPiece = (sysvStep s p).1 ∧ VaRel (vaArgStep v p).2 (sysvStep s p).2 := by
   cases p with
-  | blk k sz => exact vaBlockArg_sysv v s k sz hR hwf hsafe
+  | blk k sz => exact vaBlockArg_sysv v s k sz hR hwf
   | ld =>
     obtain ⟨hg, hf, ho, hi6, hf8⟩ := hR
-    have ha := hld rfl
-    have hal : (s.off + 15) / 16 * 16 = s.off := by omega
-    simp [vaArgStep, sysvStep, VaRel, Src.toPiece, hal, ho, hg, hf, hi6, hf8]
+    simp [vaArgStep, sysvStep, VaRel, Src.toPiece, ho, hg, hf, hi6, hf8]
   | int =>
     obtain ⟨hg, hf, ho, hi6, hf8⟩ := hR
     by_cases h : s.ni < 6
@@ -270,33 +282,23 @@ theorem vaArgStep_sysv (v : VaList) (s : SysV) (p : PTy) (hR : VaRel v s) (hwf :
     · have h' : ¬ v.fp ≤ 160 := by omega
       simp [vaArgStep, sysvStep, VaRel, Src.toPiece, h, h', ho]; omega
 
-theorem blkSafe_cons (s : SysV) (p : PTy) (ps : List PTy) (h : blkSafe s (p :: ps) = true) :
-    blkSafe s [p] = true ∧ blkSafe (sysvStep s p).2 ps = true := by
-  simp only [blkSafe, Bool.and_eq_true] at h ⊢
-  exact ⟨⟨h.1, trivial⟩, h.2⟩
-
 theorem vaArgWalk_sysv : ∀ (ps : List PTy) (v : VaList) (s : SysV), VaRel v s →
-    allWf ps = true → blkSafe s ps = true → ldAligned s ps = true →
+    allWf ps = true →
     (vaArgWalk v ps).1.map (·.map Src.toPiece) = (sysvWalk s ps).1
     ∧ VaRel (vaArgWalk v ps).2 (sysvWalk s ps).2
-  | [], _, _, hR, _, _, _ => ⟨rfl, hR⟩
-  | p :: ps, v, s, hR, hwf, hsafe, hld => by
+  | [], _, _, hR, _ => ⟨rfl, hR⟩
+  | p :: ps, v, s, hR, hwf => by
     simp only [allWf, Bool.and_eq_true] at hwf
-    simp only [ldAligned, Bool.and_eq_true] at hld
-    obtain ⟨hs1, hs2⟩ := blkSafe_cons s p ps hsafe
-    have hldp : p = .ld → s.off % 16 = 0 := by
-      intro hp; subst hp; simpa using hld.1
-    obtain ⟨h1, h2⟩ := vaArgStep_sysv v s p hR hwf.1 hs1 hldp
-    obtain ⟨h3, h4⟩ := vaArgWalk_sysv ps _ _ h2 hwf.2 hs2 hld.2
+    obtain ⟨h1, h2⟩ := vaArgStep_sysv v s p hR hwf.1
+    obtain ⟨h3, h4⟩ := vaArgWalk_sysv ps _ _ h2 hwf.2
     simp only [vaArgWalk, sysvWalk, List.map_cons]
     exact ⟨by rw [h1, h3], h4⟩
 
 /-- the C compiler's `va_arg` (used by `interp` for the named parameters) aligns `long double` itself -/
-theorem gccVaArg_sysv (v : VaList) (s : SysV) (p : PTy) (hR : VaRel v s) (hwf : p.wf = true)
-    (hsafe : blkSafe s [p] = true) :
+theorem gccVaArg_sysv (v : VaList) (s : SysV) (p : PTy) (hR : VaRel v s) (hwf : p.wf = true) :
     (gccVaArg v p).1.map Src.toPiece = (sysvStep s p).1 ∧ VaRel (gccVaArg v p).2 (sysvStep s p).2 := by
   cases p with
-  | blk k sz => exact vaBlockArg_sysv v s k sz hR hwf hsafe
+  | blk k sz => exact vaBlockArg_sysv v s k sz hR hwf
   | ld =>
     obtain ⟨hg, hf, ho, hi6, hf8⟩ := hR
     simp [gccVaArg, sysvStep, VaRel, Src.toPiece, ho, hg, hf, hi6, hf8]
@@ -334,31 +336,30 @@ theorem gccVaArg_sysv (v : VaList) (s : SysV) (p : PTy) (hR : VaRel v s) (hwf : 
       simp [gccVaArg, sysvStep, VaRel, Src.toPiece, h, h', ho]; omega
 
 theorem shimWalk_sysv : ∀ (ps : List PTy) (v : VaList) (s : SysV), VaRel v s →
-    allWf ps = true → blkSafe s ps = true →
+    allWf ps = true →
     (shimWalk v ps).1.map (·.map Src.toPiece) = (sysvWalk s ps).1
     ∧ VaRel (shimWalk v ps).2 (sysvWalk s ps).2
-  | [], _, _, hR, _, _ => ⟨rfl, hR⟩
-  | p :: ps, v, s, hR, hwf, hsafe => by
+  | [], _, _, hR, _ => ⟨rfl, hR⟩
+  | p :: ps, v, s, hR, hwf => by
     simp only [allWf, Bool.and_eq_true] at hwf
-    obtain ⟨hs1, hs2⟩ := blkSafe_cons s p ps hsafe
-    obtain ⟨h1, h2⟩ := gccVaArg_sysv v s p hR hwf.1 hs1
-    obtain ⟨h3, h4⟩ := shimWalk_sysv ps _ _ h2 hwf.2 hs2
+    obtain ⟨h1, h2⟩ := gccVaArg_sysv v s p hR hwf.1
+    obtain ⟨h3, h4⟩ := shimWalk_sysv ps _ _ h2 hwf.2
     simp only [shimWalk, sysvWalk, List.map_cons]
     exact ⟨by rw [h1, h3], h4⟩
 
 /-! ### the `va_start` expansion -/
 
 theorem vaStart_fold : ∀ (ps : List PTy) (g : VaSt) (s : SysV),
-    g.gp = 8 * s.ni → g.fp = 48 + 16 * s.nf → g.mem = s.off → s.off % 16 = 0 →
+    g.gp = 8 * s.ni → g.fp = 48 + 16 * s.nf → g.mem = s.off →
     s.ni + intCount ps < 6 → s.nf + fpCount ps ≤ 8 → blkPlain ps = true →
     (ps.foldl vaStartStep g).gp = 8 * (sysvWalk s ps).2.ni
     ∧ (ps.foldl vaStartStep g).fp = 48 + 16 * (sysvWalk s ps).2.nf
     ∧ (ps.foldl vaStartStep g).mem = (sysvWalk s ps).2.off
     ∧ (sysvWalk s ps).2.ni < 6 ∧ (sysvWalk s ps).2.nf ≤ 8
-  | [], g, s, hg, hf, hm, _, hi, hfc, _ => by
+  | [], g, s, hg, hf, hm, hi, hfc, _ => by
     simp [intCount, fpCount] at hi hfc
     exact ⟨hg, hf, hm, hi, hfc⟩
-  | p :: ps, g, s, hg, hf, hm, ha, hi, hfc, hb => by
+  | p :: ps, g, s, hg, hf, hm, hi, hfc, hb => by
     simp only [List.foldl_cons, sysvWalk]
     cases p with
     | int =>
@@ -368,7 +369,7 @@ theorem vaStart_fold : ∀ (ps : List PTy) (g : VaSt) (s : SysV),
       have e1 : vaStartStep g .int = { g with gp := g.gp + 8 } := by simp only [vaStartStep, if_neg hno]
       have e2 : (sysvStep s .int).2 = { s with ni := s.ni + 1 } := by simp only [sysvStep, if_pos hlt]
       rw [e1, e2]
-      exact vaStart_fold ps _ _ (by show g.gp + 8 = 8 * (s.ni + 1); omega) hf hm ha
+      exact vaStart_fold ps _ _ (by show g.gp + 8 = 8 * (s.ni + 1); omega) hf hm
         (by show s.ni + 1 + intCount ps < 6; omega) hfc hb
     | rblk =>
       simp [intCount, fpCount, isIntClass, isFp, blkPlain] at hi hfc hb
@@ -377,7 +378,7 @@ theorem vaStart_fold : ∀ (ps : List PTy) (g : VaSt) (s : SysV),
       have e1 : vaStartStep g .rblk = { g with gp := g.gp + 8 } := by simp only [vaStartStep, if_neg hno]
       have e2 : (sysvStep s .rblk).2 = { s with ni := s.ni + 1 } := by simp only [sysvStep, if_pos hlt]
       rw [e1, e2]
-      exact vaStart_fold ps _ _ (by show g.gp + 8 = 8 * (s.ni + 1); omega) hf hm ha
+      exact vaStart_fold ps _ _ (by show g.gp + 8 = 8 * (s.ni + 1); omega) hf hm
         (by show s.ni + 1 + intCount ps < 6; omega) hfc hb
     | flt =>
       simp [intCount, fpCount, isIntClass, isFp, blkPlain] at hi hfc hb
@@ -386,7 +387,7 @@ theorem vaStart_fold : ∀ (ps : List PTy) (g : VaSt) (s : SysV),
       have e1 : vaStartStep g .flt = { g with fp := g.fp + 16 } := by simp only [vaStartStep, if_neg hno]
       have e2 : (sysvStep s .flt).2 = { s with nf := s.nf + 1 } := by simp only [sysvStep, if_pos hlt]
       rw [e1, e2]
-      exact vaStart_fold ps _ _ hg (by show g.fp + 16 = 48 + 16 * (s.nf + 1); omega) hm ha hi
+      exact vaStart_fold ps _ _ hg (by show g.fp + 16 = 48 + 16 * (s.nf + 1); omega) hm hi
         (by show s.nf + 1 + fpCount ps ≤ 8; omega) hb
     | dbl =>
       simp [intCount, fpCount, isIntClass, isFp, blkPlain] at hi hfc hb
@@ -395,16 +396,15 @@ theorem vaStart_fold : ∀ (ps : List PTy) (g : VaSt) (s : SysV),
       have e1 : vaStartStep g .dbl = { g with fp := g.fp + 16 } := by simp only [vaStartStep, if_neg hno]
       have e2 : (sysvStep s .dbl).2 = { s with nf := s.nf + 1 } := by simp only [sysvStep, if_pos hlt]
       rw [e1, e2]
-      exact vaStart_fold ps _ _ hg (by show g.fp + 16 = 48 + 16 * (s.nf + 1); omega) hm ha hi
+      exact vaStart_fold ps _ _ hg (by show g.fp + 16 = 48 + 16 * (s.nf + 1); omega) hm hi
         (by show s.nf + 1 + fpCount ps ≤ 8; omega) hb
     | ld =>
       simp [intCount, fpCount, isIntClass, isFp, blkPlain] at hi hfc hb
-      have hal : (s.off + 15) / 16 * 16 = s.off := by omega
-      have e1 : vaStartStep g .ld = { g with mem := g.mem + 16 } := by simp only [vaStartStep]
-      have e2 : (sysvStep s .ld).2 = { s with off := s.off + 16 } := by simp only [sysvStep, hal]
+      have e1 : vaStartStep g .ld = { g with mem := (g.mem + 15) / 16 * 16 + 16 } := by simp only [vaStartStep]
+      have e2 : (sysvStep s .ld).2 = { s with off := (s.off + 15) / 16 * 16 + 16 } := by simp only [sysvStep]
       rw [e1, e2]
-      exact vaStart_fold ps _ _ hg hf (by show g.mem + 16 = s.off + 16; omega)
-        (by show (s.off + 16) % 16 = 0; omega) hi hfc hb
+      exact vaStart_fold ps _ _ hg hf (by show (g.mem + 15) / 16 * 16 + 16 = (s.off + 15) / 16 * 16 + 16; omega)
+        hi hfc hb
     | blk k sz =>
       simp [intCount, fpCount, isIntClass, isFp, blkPlain] at hi hfc hb
       obtain ⟨⟨hk, hsz⟩, hb'⟩ := hb
@@ -413,8 +413,7 @@ theorem vaStart_fold : ∀ (ps : List PTy) (g : VaSt) (s : SysV),
       have e1 : vaStartStep g (.blk 0 sz) = { g with mem := g.mem + sz } := by simp only [vaStartStep]
       have e2 : (sysvStep s (.blk 0 sz)).2 = { s with off := s.off + sz } := by simp only [sysvStep, hwd]
       rw [e1, e2]
-      exact vaStart_fold ps _ _ hg hf (by show g.mem + sz = s.off + sz; omega)
-        (by show (s.off + sz) % 16 = 0; omega) hi hfc hb'
+      exact vaStart_fold ps _ _ hg hf (by show g.mem + sz = s.off + sz; omega) hi hfc hb'
 
 /-! ### the walk keeps the register counters within the register files -/
 
